@@ -31,14 +31,15 @@ RULE = ('cases: (a) agent collectors: seeded runs of 30 timesteps with a populat
         'timesteps by scripted systems ordered before (priority >= 0) and after (priority < -1) the collector; per-agent functions '
         'returning a value or None per agent, composite functions returning a dict or None per timestep, includeTimstep on/off, '
         'collector windows (start/end/frequency), default and explicit priorities; after every step the records are compared with the '
-        'reference and all earlier records with their deep copies; (b) file collectors: write_count 0..6, 0-3 uniquely numbered strings '
+        'reference and all earlier records with their deep copies; in one run of five the model moves to a new environment in the middle of the run '
+        '(some residents migrate, the others stay behind in the abandoned one); (b) file collectors: write_count 0..6, 0-3 uniquely numbered strings '
         'per collection, windows, append mode; after every step: conservation, flush cadence, opens counted by an audit hook, file = '
         'whole-flush prefix; (c) child interpreters killed after step t (every t of the run), file read from outside. Non-trivial: '
         'run with a population change during a step, an empty record skipped and an unscheduled step (a), or >=2 flushes with '
         'records held in between and an empty collection (b); distinct by the run signature.')
 ASSUMPTIONS = ['file clause checked for the default clear_records_on_write=True and filemode "a" (the property\'s wording)',
                'per-agent / composite functions are pure', 'os._exit after step t stands for a crash between timesteps']
-FLOORS = {'quick': {'agents_rejoining_as_the_same_object': 1609, 'busy_rounds_between_two_collections': 1726, 'file_collectors_with_their_own_write_records': 53, 'second_collector_comparisons': 1790, 'runs_with_a_second_collector_using_the_same_functions': 59, 'file_collector_runs_with_a_raising_log_handler': 40, 'runs_continued_on_a_deep_copy_of_the_model': 37, 'collections_interrupted': 138, 'collection_passes_failing_half_way': 161, 'nested_models_run_inside_a_collection': 427, 'environment_installed_after_collector': 70, 'agent_steps': 10000, 'records_compared': 5000, 'empty_records_skipped': 324, 'unscheduled_steps': 2000,
+FLOORS = {'quick': {'environments_replaced_between_two_collections': 44, 'agents_rejoining_as_the_same_object': 1609, 'busy_rounds_between_two_collections': 1726, 'file_collectors_with_their_own_write_records': 53, 'second_collector_comparisons': 1790, 'runs_with_a_second_collector_using_the_same_functions': 59, 'file_collector_runs_with_a_raising_log_handler': 40, 'runs_continued_on_a_deep_copy_of_the_model': 37, 'collections_interrupted': 138, 'collection_passes_failing_half_way': 161, 'nested_models_run_inside_a_collection': 427, 'environment_installed_after_collector': 70, 'agent_steps': 10000, 'records_compared': 5000, 'empty_records_skipped': 324, 'unscheduled_steps': 2000,
                     'mid_step_population_changes': 2000, 'composite_none': 1000, 'composite_dict': 1000, 'shared_composite_dict_calls': 1000, 'history_unchanged_checks': 8000,
                     'file_steps': 4900, 'flushes': 1500, 'conservation_checks': 4900, 'empty_collections': 712, 'opens_observed': 1500,
                     'killed_children': 14, 'default_priority_runs': 200, 'big_many_systems_runs': 4, 'big_flush_batches': 4, 'collectors_attached_late': 100, 'late_collector_twin_runs': 100,
@@ -249,6 +250,7 @@ def case_agent(ctx, case):
     history = []              # deep copies of records as first seen
     flags = set()
     copy_at = rng.randrange(2, steps) if rng.random() < 0.2 else None
+    swap_at = rng.randrange(3, steps - 3) if rng.random() < 0.2 else None
     for t in range(steps):
         if t == copy_at and (t > register_at or register_at == 0):
             # the run continues on a deep copy of the whole model (a duplicated / restored set-up): its collector records ITS agents
@@ -270,6 +272,28 @@ def case_agent(ctx, case):
                 model.systems.add_system(Churn('late_default', model, late))
         # between-steps change by the driver (now and then a whole round of departures and arrivals; agents that left may come back as
         # the very same objects)
+        if t == swap_at:
+            # the model moves to a NEW environment in the middle of the run (after collections have happened): some residents migrate
+            # (they leave the old environment and join the new one as themselves), the others stay behind in the abandoned environment -
+            # from now on 'the agents then in the environment' are those of the model's current environment
+            import ECAgent.Environments as envs_
+            new_env = rng.choice([lambda: core.Environment(model), lambda: core.Environment(model), lambda: envs_.GridWorld(model, 4, 3)])()
+            movers = [aid for aid in pop if rng.random() < 0.5]
+            moved = []
+            for aid in movers:
+                a_ = env.get_agent(aid)
+                env.remove_agent(aid)
+                moved.append(a_)
+            if rng.random() < 0.5:
+                model.set_environment(new_env)
+            else:
+                model.environment = new_env
+            env = model.environment
+            for a_ in moved:
+                env.add_agent(a_)
+            pop = {a_.id: a_[Val].v for a_ in moved}
+            parked = {}
+            ctx.count('environments_replaced_between_two_collections')
         busy = rng.random() < 0.25
         if busy:
             ctx.count('busy_rounds_between_two_collections')
